@@ -86,12 +86,22 @@ Proof.
   destruct ((twos 32 (fld sector 20 4) <? 512) || (65536 <? twos 32 (fld sector 20 4))) eqn:E2; [lia|]. lia.
 Qed.
 
+(* not hot: no journal, or one validJournal rejects *)
+Definition cold (s : cstate) : Prop := match cj s with None => True | Some j => valid_journal j = false end.
+
+Lemma zero_first_invalid rest : valid_journal (x00 :: rest) = false.
+Proof.
+  unfold valid_journal. destruct (len (x00 :: rest) <? 28); [reflexivity|].
+  unfold take. change (Z.to_nat 8) with 8%nat. cbn [firstn]. unfold journal_magic. cbn [combine forallb fst snd].
+  change (b2z x00 =? 217) with false. reflexivity.
+Qed.
+
 Definition Inv (p : phase) (s : cstate) : Prop :=
   match p with
   | PStart => cmod s = false /\ cdone s = false
   | PBuilding => cmod s = false /\ cdone s = false /\ exists sector rest, sector_ok sector /\ cj s = Some (sector ++ rest)
   | PHot => cdone s = false /\ exists j, cj s = Some j /\ valid_journal j = true
-  | PDone => cdone s = true
+  | PDone => cdone s = true /\ cold s
   end.
 
 Lemma step_inv p q s o : Inv p s -> next p o = Some q ->
@@ -111,9 +121,9 @@ Proof.
   - exact HI.
   - destruct HI as (B & j & Hj & Hv). split; [exact B|]. exists j. split; assumption.
   - exact HI.
-  - reflexivity.
-  - reflexivity.
-  - reflexivity.
+  - split; [reflexivity|exact I].
+  - split; [reflexivity|]. unfold cold. cbn [cj]. reflexivity.
+  - split; [reflexivity|]. unfold cold. cbn [cj]. unfold overwrite. cbn [repeat app]. apply zero_first_invalid.
   - exact HI.
   - exact HI.
 Qed.
@@ -163,7 +173,7 @@ Proof.
     - destruct HI as [A _]. congruence.
     - destruct HI as [A _]. congruence.
     - destruct HI as (_ & j & Hj & Hv). eauto.
-    - congruence. }
+    - destruct HI as [A _]. congruence. }
   destruct part as [i|]; [|exact Base].
   destruct (nth_error ops k) as [o|] eqn:Eo; [|exact Base].
   destruct Hnext as (q'' & Hstep).
@@ -180,5 +190,39 @@ Proof.
     all: try (intros _ _; exists j; split; assumption).
     all: try (intros _ X; discriminate X).
     destruct i; [exact Base|]. cbn [cdone]. intros _ X. discriminate X.
+  - destruct o; cbn [next] in Hstep; try discriminate; cbn [cstep]; exact Base.
+Qed.
+
+(* the commit-point side: once the commit operation has (even partly) taken effect - the
+   journal unlinked, truncated, or its header zeroed from the first byte on - what is left is
+   not a hot journal, at every later crash point: the reader reads the file, which now is the
+   transaction's post-image *)
+Theorem committed_cold old ops k part : wf_ops ops ->
+  let s := crash old ops k part in cdone s = true -> cold s.
+Proof.
+  intros ((q & Hq) & Hs & Hn). unfold crash.
+  destruct (phases_prefix ops PStart q k Hq) as (q' & Hq' & Hnext).
+  assert (HI: Inv q' (fold_left (cstep None) (firstn k ops) (cinit old))).
+  { apply (run_inv (firstn k ops) PStart q'); [split; reflexivity|exact Hq'| |].
+    - intros sec Hin. apply Hs. eapply (In_firstn_incl); eauto.
+    - intros nr Hin. apply Hn. eapply (In_firstn_incl); eauto. }
+  set (s0 := fold_left (cstep None) (firstn k ops) (cinit old)) in *.
+  assert (Base: cdone s0 = true -> cold s0).
+  { destruct q'; cbn [Inv] in HI.
+    - destruct HI as [_ B]. congruence.
+    - destruct HI as (_ & B & _). congruence.
+    - destruct HI as (B & _). congruence.
+    - destruct HI as [_ C]. intros _. exact C. }
+  destruct part as [i|]; [|exact Base].
+  destruct (nth_error ops k) as [o|] eqn:Eo; [|exact Base].
+  destruct Hnext as (q'' & Hstep).
+  destruct q'; cbn [Inv] in HI.
+  - destruct HI as [A B]. destruct o; cbn [next] in Hstep; try discriminate. cbn [cstep cdone]. congruence.
+  - destruct HI as (A & B & _). destruct o; cbn [next] in Hstep; try discriminate; cbn [cstep cdone]; congruence.
+  - destruct HI as (B & _).
+    destruct o; cbn [next] in Hstep; try discriminate; cbn [cstep cdone]; try congruence.
+    + intros _. exact I.
+    + intros _. unfold cold. cbn [cj]. reflexivity.
+    + destruct i as [|i]; [exact Base|]. intros _. unfold cold. cbn [cj cut]. unfold overwrite. cbn [repeat firstn app]. apply zero_first_invalid.
   - destruct o; cbn [next] in Hstep; try discriminate; cbn [cstep]; exact Base.
 Qed.
